@@ -393,6 +393,46 @@ def _adoption(ctx, rule):
     return c02.r1_adoption_kernel(ctx, rule)
 
 
+def r14_recasing_round_trip(ctx, rule):
+    """The scorer prices an alpha segment only if the guesser can spell it: a mask records which letters are upper-case and the
+    guesser upper-cases letters of the lower-cased word, so a segment scores only when (low.upper() if orig.isupper() else low)
+    gives every letter back and lower() kept the length.  Without that guard titlecase digraphs, the capital sharp s and the dotted
+    capital I get a non-zero score for a string no pre-terminal ever emits (defect of the pinned tree, repaired by 3b08f17).
+    Decided structurally - a NECESSARY condition: parse() loops over the final section list and, for labels starting with 'A',
+    zeroes the returned probability (or returns 0) under a test that compares the original letters with that re-casing."""
+    q = 'lib_scorer/pcfg_password_scorer.py::PCFGPasswordScorer.parse'
+    fn = ctx.fn(q)
+    rets = [r for r in walk_local(fn) if isinstance(r, ast.Return) and isinstance(r.value, ast.Tuple) and len(r.value.elts) == 4]
+    if not ctx.floor(rule, q, len(rets), 1, 'result tuples of parse'):
+        return
+    probvar = next((U(r.value.elts[2]) for r in reversed(rets) if isinstance(r.value.elts[2], ast.Name)), None)
+    guards = []
+    for lp in [n for n in walk_local(fn) if isinstance(n, ast.For) and U(n.iter) == 'section_list']:
+        names = [e.id for e in (lp.target.elts if isinstance(lp.target, ast.Tuple) else [lp.target]) if isinstance(e, ast.Name)]
+        zero = [s_ for s_ in walk_stmts(lp.body)
+                if (isinstance(s_, ast.Assign) and probvar and U(s_.targets[0]) == probvar and const(s_.value) == 0)
+                or (isinstance(s_, ast.Return) and isinstance(s_.value, ast.Tuple) and len(s_.value.elts) == 4 and const(s_.value.elts[2]) == 0)]
+        if not zero:
+            continue
+        txt = U(lp)
+        alpha_only = any("[0] == 'A'" in U(t) or ".startswith('A')" in U(t) for t in (x.test for x in ast.walk(lp) if isinstance(x, ast.If)))
+        recase = '.lower()' in txt and '.upper()' in txt and '.isupper()' in txt and \
+            any(isinstance(c, ast.Compare) and isinstance(c.ops[0], (ast.NotEq, ast.Eq)) for c in ast.walk(lp))
+        keeps_len = 'len(' in txt
+        guards.append({'loop_over': names, 'alpha_only': alpha_only, 'recasing_compared': recase, 'length_compared': keeps_len})
+    facts = {'probability_variable': probvar, 'guards': guards}
+    good = [g for g in guards if g['alpha_only'] and g['recasing_compared'] and g['length_compared']]
+    if good:
+        ctx.ok(rule, q, 'alpha segments whose letters the mask re-casing does not give back score 0', facts)
+    elif guards:
+        ctx.unk(rule, q, 'parse() zeroes the probability inside a loop over the sections, but the test is not the re-casing comparison: %s' % guards)
+    else:
+        ctx.bad(rule, q, 'no re-casing guard in PCFGPasswordScorer.parse',
+                "a string whose alpha segment contains a letter with lower().upper() != itself (titlecase 'Dz' digraphs U+01C5.., capital "
+                "sharp s U+1E9E, dotted capital I U+0130) is lower-cased, found in the alpha list, given the mask probability and a non-zero "
+                "score - but the guesser re-creates spellings by upper-casing the stored lower-case letters and never emits it", facts, fn)
+
+
 def _mask_per_character(ctx, rule):
     # the scorer prices the spelling whose mask is 'U' where letter.isupper(); the guesser emits that spelling only if it upper-cases
     # the character at the same position (seed C13-i: end_word.upper() taken once and zipped with the mask)
@@ -402,7 +442,7 @@ def _mask_per_character(ctx, rule):
 
 def rules(tier):
     return [('C13.R1', r1_detector_order), ('C13.R2', r2_early_return), ('C13.R3', r3_factors), ('C13.R4', r4_effect_free),
-            ('C13.R5', r5_loader), ('C13.R8', _splice), ('C13.R9', c03.r2_mask_producer), ('C13.R10', c03.r3_mask_insertion), ('C13.R11', r11_no_shared_class_state), ('C13.R12', _adoption), ('C13.R13', _mask_per_character), ('C13.R6', lambda c, r: c07.r5_strip_discipline(c, r, only=('lib_guesser/grammar_io.py::_load_from_file', 'lib_scorer/grammar_io.py::_load_from_file',
+            ('C13.R5', r5_loader), ('C13.R8', _splice), ('C13.R9', c03.r2_mask_producer), ('C13.R10', c03.r3_mask_insertion), ('C13.R11', r11_no_shared_class_state), ('C13.R12', _adoption), ('C13.R13', _mask_per_character), ('C13.R14', r14_recasing_round_trip), ('C13.R6', lambda c, r: c07.r5_strip_discipline(c, r, only=('lib_guesser/grammar_io.py::_load_from_file', 'lib_scorer/grammar_io.py::_load_from_file',
                                                                         'lib_guesser/grammar_io.py::_load_base_structures'), floor=3)),
             ('C13.R7', lambda c, r: c07.r2_encoding_agreement(c, r, file_filter=lambda fid: fid[0] not in ('Omen', 'Emails', 'Websites', 'Prince'), floor=12))]
 
